@@ -53,6 +53,8 @@ type State struct {
 	granted bool
 	preempt int
 	mus     map[string]MuState
+	wgs     map[string]int
+	ctxDone bool
 	sched   []int
 	frames  []*Frame
 	pc      []*Term
@@ -156,10 +158,15 @@ func (st *State) clone() *State {
 	n.effects = append([]string(nil), st.effects...)
 	n.sha1s = append([]shaApp(nil), st.sha1s...)
 	n.cur, n.granted, n.preempt = st.cur, st.granted, st.preempt
+	n.ctxDone = st.ctxDone
 	n.sched = append([]int(nil), st.sched...)
 	n.mus = map[string]MuState{}
 	for k, v := range st.mus {
 		n.mus[k] = v
+	}
+	n.wgs = map[string]int{}
+	for k, v := range st.wgs {
+		n.wgs[k] = v
 	}
 	for i, t := range st.threads {
 		nt := &Thr{done: t.done, sleeping: t.sleeping, hashing: t.hashing}
@@ -637,6 +644,7 @@ func (ex *Exec) Run(fn *ssa.Function) {
 	st.frames = []*Frame{{fn: fn, env: map[ssa.Value]Value{}, block: fn.Blocks[0], visits: map[int]int{}}}
 	st.threads = []*Thr{{}}
 	st.mus = map[string]MuState{}
+	st.wgs = map[string]int{}
 	// run package initialisers of repo packages reachable from the harness package
 	ex.initDone = map[*ssa.Package]bool{}
 	ex.runInits(st, fn.Pkg)
@@ -1800,6 +1808,15 @@ func (ex *Exec) convert(st *State, v Value, from, to types.Type) Value {
 		}
 		return v
 	}
+	if sl, ok := v.(SliceV); ok {
+		if b, ok := to.Underlying().(*types.Basic); ok && b.Info()&types.IsString != 0 {
+			if sl.Obj == 0 {
+				return StringV{S: ""}
+			}
+			a, _ := ex.sliceArr(st, sl)
+			return StringV{Sym: true, Arr: ACopy(AConst(8, 0), Const(64, 0), a.A, sl.Off, sl.Len), Len: sl.Len, Max: 64}
+		}
+	}
 	if types.Identical(from.Underlying(), to.Underlying()) {
 		return v
 	}
@@ -1878,10 +1895,13 @@ func (ex *Exec) callTarget(st *State, c *ssa.CallCommon) (Value, []Value) {
 			ex.finish(st, "panic", "nil interface method call", c.Pos())
 			return nil, nil
 		}
-		if _, ok := recv.V.(OpaqueV); ok {
+		if ov, ok := recv.V.(OpaqueV); ok {
 			// opaque receiver: havoc
 			for _, a := range c.Args {
 				args = append(args, ex.get(st, a))
+			}
+			if strings.HasPrefix(ov.Kind, "env") && c.Method.Name() != "Err" && c.Method.Name() != "Done" {
+				return OpaqueV{"envinvoke:" + c.Method.Name(), 0}, args
 			}
 			return OpaqueV{"invoke:" + c.Method.Name(), 0}, args
 		}
@@ -1913,6 +1933,33 @@ func (ex *Exec) callValue(st *State, fv Value, args []Value, in *ssa.Call, pos t
 	}
 	switch f := fv.(type) {
 	case OpaqueV:
+		switch f.Kind {
+		case "invoke:Err": // context.Context.Err: cancelled or not, at any point; once cancelled, for good
+			if in != nil {
+				if st.ctxDone {
+					setRes(errVal("context.Canceled"))
+					return true
+				}
+				o := st.clone()
+				o.ctxDone = true
+				o.top().env[in] = errVal("context.Canceled")
+				ex.work = append(ex.work, o)
+				setRes(nilErr)
+			}
+			return true
+		case "invoke:Done":
+			if in != nil {
+				setRes(ChanV{ex.newObj(st, ChanState{Env: true})})
+			}
+			return true
+		}
+		if strings.HasPrefix(f.Kind, "envinvoke:") {
+			// a method of an environment object (response body, ...): arbitrary result by contract
+			if in != nil {
+				ex.envResult(st, in, f.Kind)
+			}
+			return true
+		}
 		if in != nil {
 			setRes(ex.havoc(st, in.Type(), "opaque"))
 		}
@@ -1940,8 +1987,18 @@ func (ex *Exec) callValue(st *State, fv Value, args []Value, in *ssa.Call, pos t
 		if ex.cfg.cut(name) {
 			ex.intr["CUT:"+name] = true
 			st.stubbed = true
+			st.effects = append(st.effects, "cut:"+f.Fn.Name())
 			if in != nil {
 				ex.havocResult(st, in, name)
+			}
+			return true
+		}
+		if envStubs[name] {
+			ex.intr["ENV:"+name] = true
+			st.stubbed = true
+			st.effects = append(st.effects, "env:"+name)
+			if in != nil {
+				ex.envResult(st, in, name)
 			}
 			return true
 		}
@@ -1993,6 +2050,99 @@ func (ex *Exec) inlineable(fn *ssa.Function) bool {
 		return true
 	}
 	return false
+}
+
+// envStubs: library calls that belong to the environment (network, formatting of requests):
+// their results are arbitrary values of their type by contract, so a path through them stays
+// precise (it is marked as stubbed: no native counterpart).
+var envStubs = map[string]bool{
+	"net/http.NewRequest": true, "(*net/http.Client).Do": true, "(*net/http.Request).WithContext": true, "(net/http.Header).Set": true,
+	"strconv.Itoa": true, "strconv.FormatInt": true, "strconv.Atoi": true, "strconv.ParseInt": true,
+	"(net/url.Values).Set": true, "(net/url.Values).Encode": true, "(*net/url.URL).String": true, "(*net/url.URL).Hostname": true, "(*net/url.URL).Port": true,
+	"github.com/jech/storrent/httpclient.Get": true, "net/netip.ParseAddr": true, "net.JoinHostPort": true,
+	"(*net/url.URL).Query": true, "(net/url.Values).Get": true, "net/url.PathEscape": true,
+}
+
+// envResult binds an arbitrary value of the call's result type; error components fork.
+func (ex *Exec) envResult(st *State, in *ssa.Call, why string) {
+	errT := types.Universe.Lookup("error").Type()
+	mk := func(s *State, t types.Type) Value { return ex.freshValue(s, t, why, 0) }
+	if tup, ok := in.Type().(*types.Tuple); ok {
+		hasErr := -1
+		for i := 0; i < tup.Len(); i++ {
+			if types.Identical(tup.At(i).Type(), errT) {
+				hasErr = i
+			}
+		}
+		if hasErr >= 0 {
+			// failure: zero results + error
+			o := st.clone()
+			tv := make(TupleV, tup.Len())
+			for i := range tv {
+				tv[i] = zeroValue(tup.At(i).Type())
+			}
+			tv[hasErr] = errVal("env:" + why)
+			o.top().env[in] = tv
+			ex.work = append(ex.work, o)
+		}
+		tv := make(TupleV, tup.Len())
+		for i := range tv {
+			if i == hasErr {
+				tv[i] = IfaceV{}
+			} else {
+				tv[i] = mk(st, tup.At(i).Type())
+			}
+		}
+		st.top().env[in] = tv
+		return
+	}
+	if types.Identical(in.Type(), errT) {
+		o := st.clone()
+		o.top().env[in] = errVal("env:" + why)
+		ex.work = append(ex.work, o)
+		st.top().env[in] = IfaceV{}
+		return
+	}
+	st.top().env[in] = mk(st, in.Type())
+}
+
+// freshValue: an arbitrary value of type t: scalars and strings symbolic, pointers non-nil to a
+// fresh value, maps empty but non-nil, interfaces opaque environment objects, slices nil.
+func (ex *Exec) freshValue(st *State, t types.Type, why string, depth int) Value {
+	if w, ok := isScalarType(t); ok {
+		if w == 0 {
+			return ex.freshVar("env", BoolSort)
+		}
+		return ex.freshVar("env", BV(w))
+	}
+	switch u := t.Underlying().(type) {
+	case *types.Basic:
+		if u.Info()&types.IsString != 0 {
+			ex.fresh++
+			nm := fmt.Sprintf("env.str!%d", ex.fresh)
+			n := ex.namedVar(nm+".len", BV(64))
+			st.pc = append(st.pc, Ule(n, Const(64, 4)))
+			return StringV{Sym: true, Arr: AVar(nm, 8), Len: n, Max: 4}
+		}
+	case *types.Pointer:
+		if depth > 3 {
+			return PtrV{}
+		}
+		id := ex.newObj(st, ex.freshValue(st, u.Elem(), why, depth+1))
+		st.heap[id].T = u.Elem()
+		return PtrV{Obj: id}
+	case *types.Struct:
+		f := make([]Value, u.NumFields())
+		for i := range f {
+			f[i] = ex.freshValue(st, u.Field(i).Type(), why, depth+1)
+		}
+		return StructV{f}
+	case *types.Map:
+		return MapV{ex.newObj(st, CellsV{})}
+	case *types.Interface:
+		return IfaceV{T: t, V: OpaqueV{"env:" + why, 0}}
+	}
+	return zeroValue(t)
 }
 
 // havocResult binds the result of a cut / unmodelled call: scalars are fresh, every
@@ -2277,6 +2427,7 @@ var visibleOps = map[string]string{
 	"sync/atomic.LoadUint32": "atomic", "sync/atomic.StoreUint32": "atomic", "sync/atomic.CompareAndSwapUint32": "atomic",
 	"sync/atomic.AddInt64": "atomic", "sync/atomic.LoadInt64": "atomic",
 	"crypto/sha1.Sum": "long", "time.Sleep": "sleep",
+	"(*sync.WaitGroup).Wait": "wgwait", "(*sync.WaitGroup).Done": "atomic",
 }
 
 func (ex *Exec) visible(instr ssa.Instruction) string {
@@ -2387,6 +2538,13 @@ func (ex *Exec) enabled(st *State, t int, fs []*Frame) bool {
 			}
 			return false
 		}
+	case "wgwait":
+		call := instr.(*ssa.Call)
+		saved := st.frames
+		st.frames = fs
+		p := ex.get(st, call.Call.Args[0]).(PtrV)
+		st.frames = saved
+		return st.wgs[ptrKey(p)] <= 0
 	case "join":
 		for i, o := range st.threads {
 			if i != t && !o.done {
